@@ -33,7 +33,19 @@ SINGLE = {("Ellipse", "a"), ("Ellipse", "b"), ("Ellipsoid", "a"), ("Ellipsoid", 
           ("ConvexSpheropolygon", "radius"), ("ConvexSpheropolyhedron", "radius")}
 CLASSES = ["ConvexPolyhedron", "Polyhedron", "ConvexSpheropolyhedron", "Polygon", "ConvexPolygon", "ConvexSpheropolygon",
            "Circle", "Ellipse", "Sphere", "Ellipsoid"]
+# the same bases in very small and very large units (nanometres written in metres, ...): an absolute threshold hidden in a
+# setter, a getter or a memo key only shows there
+UNITS = (("nano", 1e-8), ("mega", 1e5))
 _plan = None
+
+
+def all_bases(cs):
+    B = {k: list(v) for k, v in bases.base_shapes(cs).items()}
+    for cname in CLASSES:
+        label0, ctor0 = B[cname][0]
+        for ulabel, u in UNITS:
+            B[cname].append((f"{label0}-{ulabel}", (lambda ctor0=ctor0, u=u: fpr.scaled_copy(ctor0(), u))))
+    return B
 
 
 def prop_dim(name):
@@ -50,7 +62,7 @@ def plan():
         bootstrap.ensure()
         import coxeter.shapes as cs
 
-        B = bases.base_shapes(cs)
+        B = all_bases(cs)
         out = []
         for cname in CLASSES:
             cls = getattr(cs, cname)
@@ -107,7 +119,7 @@ def finite_state(st):
 def setup(rec, tier):
     import coxeter.shapes as cs
 
-    state = {"cs": cs, "B": bases.base_shapes(cs), "current": None}
+    state = {"cs": cs, "B": all_bases(cs), "current": None}
 
     def pre(name):
         def f(s, a, k):
@@ -263,7 +275,9 @@ def _apply(rec, state, s, cname, blabel, sname, mode, val, rng):
         except Exception:
             old = None
     if mode == "move":
-        target = np.asarray(old, float) + np.array([0.7, -1.3, 2.1]) if old is not None else np.array([0.7, -1.3, 2.1])
+        u = next((f for lab, f in UNITS if blabel.endswith("-" + lab)), 1.0)      # moves are in the units of the base
+        step = np.array([0.7, -1.3, 2.1]) * u
+        target = np.asarray(old, float) + step if old is not None else step
         if val == "list":
             target = [float(x) for x in target]
         elif val == "own-vertex-view" and hasattr(s, "vertices"):
